@@ -11,7 +11,7 @@ import (
 func init() {
 	register(&propDef{
 		ID:       "C08",
-		Explain:  "Decided (structural necessary conditions): the feed callback subscribe.(*Server).Update and everything it can reach (UpdateNotification, path.ToStrings, match.UpdateOnce/(*branch).update, every non-test match.Client implementer, coalesce.Insert/insert) contains no blocking construct (channel op outside a select with default, select without default, stream Send/Recv, sleeping/waiting/IO library calls); no blocking construct is executed while Match.mu, the queue mutex, or any lock of cache/ctree/metadata/latency is held, with the cache's client field bound to Server.Update and module visitors checked to be non-blocking; at most one queue entry per pending key (a pending key is never appended again); every stream Send in package subscribe is bracketed by Reset/Stop of the timer the watcher goroutine selects on, whose expiry sends a non-nil error to errC; duplicate counts are written only into a proto.Clone and carry the count returned by Queue.Next. Also decided: typestate of the send timer over the sender loop (stopped whenever Queue.Next is called, by induction over one iteration with sendSubscribeResponse inlined); removeQuery prunes only nodes without clients and children (ending one subscriber's registration leaves the others in place); coalesce.next forgets the dequeued key. Round-3 additions: a deleted leaf keeps its value for queued handles (who-may-write table of a node's content: internalDelete stores nothing into a node); the wake-up token (C11.token, borrowed). Round-4 additions: the all-targets walk never re-acquires Cache.mu (a recursive read lock behind a waiting writer blocks every later GnmiUpdate); the handle announced for a change is the tree's own node, on whose identity the queue coalesces (borrowed from C03). Round-5 addition: a change is offered to one subscriber at most once per notification also when several of its subscription paths match (borrowed from C06): otherwise it is inserted, and counted as a duplicate, several times. Round-6 addition: the response handed to a subscriber wraps the whole cached notification or a clone of the whole of it (a rebuilt message drops the atomic flag / the other updates of a coalesced atomic group).",
+		Explain:  "Decided (structural necessary conditions): the feed callback subscribe.(*Server).Update and everything it can reach (UpdateNotification, path.ToStrings, match.UpdateOnce/(*branch).update, every non-test match.Client implementer, coalesce.Insert/insert) contains no blocking construct (channel op outside a select with default, select without default, stream Send/Recv, sleeping/waiting/IO library calls); no blocking construct is executed while Match.mu, the queue mutex, or any lock of cache/ctree/metadata/latency is held, with the cache's client field bound to Server.Update and module visitors checked to be non-blocking; at most one queue entry per pending key (a pending key is never appended again); every stream Send in package subscribe is bracketed by Reset/Stop of the timer the watcher goroutine selects on, whose expiry sends a non-nil error to errC; duplicate counts are written only into a proto.Clone and carry the count returned by Queue.Next. Also decided: typestate of the send timer over the sender loop (stopped whenever Queue.Next is called, by induction over one iteration with sendSubscribeResponse inlined); removeQuery prunes only nodes without clients and children (ending one subscriber's registration leaves the others in place); coalesce.next forgets the dequeued key. Round-3 additions: a deleted leaf keeps its value for queued handles (who-may-write table of a node's content: internalDelete stores nothing into a node); the wake-up token (C11.token, borrowed). Round-4 additions: the all-targets walk never re-acquires Cache.mu (a recursive read lock behind a waiting writer blocks every later GnmiUpdate); the handle announced for a change is the tree's own node, on whose identity the queue coalesces (borrowed from C03). Round-5 addition: a change is offered to one subscriber at most once per notification also when several of its subscription paths match (borrowed from C06): otherwise it is inserted, and counted as a duplicate, several times. Round-6 addition: the response handed to a subscriber wraps the whole cached notification or a clone of the whole of it (a rebuilt message drops the atomic flag / the other updates of a coalesced atomic group). Round-7 additions: every path of the timeout watcher that takes the timer arm reports on errC before waiting again; one match client per subscriber (the per-notification set is keyed by client identity).",
 		NotCover: "actual latency / non-interference timings; exactness of duplicate counts (C11); sufficiency of errC's capacity for late senders",
 		Run:      runC08,
 	})
@@ -120,13 +120,14 @@ func runC08(c *Ctx) {
 	contentWriters(c, "C08.handles-keep-value")
 	respFaithful(c, "C08.resp-faithful")
 	c.Borrow("C06", map[string]string{"C06.once": "C08.once"}, "'at most one entry per distinct pending leaf' and 'a duplicate count equal to the number of updates coalesced': a change offered to one subscriber once per matching subscription path is inserted, and counted, several times")
+	oneClientPerSubscriber(c, "C08.one-client")
 	c.Borrow("C11", map[string]string{"C11.token": "C08.wakeup"}, "a producer that skips the wake-up token leaves a healthy subscriber's sender parked with updates pending: it stops receiving although nothing is blocked")
 	c.Borrow("C03", map[string]string{"C03.write-then-return": "C08.leaf-handle"}, "the backlog is bounded because the queue coalesces on the identity of the leaf handle: the handle announced for a change must be the tree's own node, not a fresh detached leaf per update")
 	c.Rule("C08.walk-locks", "package cache: Cache.targets only under Cache.mu; no re-entrant acquisition of Cache.mu - 'accepting a target update never waits on any subscriber': a subscriber's all-targets snapshot walk that re-acquires Cache.mu for reading deadlocks behind a waiting writer, and every later GnmiUpdate then blocks behind it")
 	walkLocks(c, "C08.walk-locks")
 	c.Rule("C08.isolation", "dropping one subscriber's registration leaves the others in place: removeQuery prunes a node only when it holds neither clients nor children")
 	removeQueryPrune(c, "C08.isolation")
-	c.Rule("C08.timer", "every gRPC Send in package subscribe is preceded on its path by Reset of the send timer and followed by its Stop; on every path of the sender loop (sendSubscribeResponse inlined) the timer is stopped whenever Queue.Next is called; the timer is the one the watcher goroutine of sendStreamingResults selects on, whose expiry arm sends a non-nil error on errC")
+	c.Rule("C08.timer", "every gRPC Send in package subscribe is preceded on its path by Reset of the send timer and followed by its Stop; on every path of the sender loop (sendSubscribeResponse inlined) the timer is stopped whenever Queue.Next is called; the timer is the one the watcher goroutine of sendStreamingResults selects on, whose expiry arm sends a non-nil error on errC on every path, without waiting again in between")
 	c.Rule("C08.dup-clone", "in package subscribe the only store into a field of a gnmi Notification/Update writes Update.Duplicates of a proto.Clone of the cached notification, and the value stored is the duplicate count handed to MakeSubscribeResponse, which sendStreamingResults takes from Queue.Next")
 
 	eff := NewEffects(P)
@@ -279,6 +280,7 @@ func runC08(c *Ctx) {
 			}
 		})
 		expiryOK := false
+		nExpiry, expiryAll := 0, true
 		if watcher != nil && timerVal != nil {
 			c.Analysed(fnName(watcher))
 			e := &PPA{Watch: func(ev *Ev) bool {
@@ -314,10 +316,19 @@ func runC08(c *Ctx) {
 				}
 				okWire = true
 				se := p.Index(si, lblPrefix("send:"))
-				if se >= 0 && strings.Contains(p.Trace[se].Label, "errC") && !isNilConst(p.Trace[se].Args[1].V) {
-					expiryOK = true
+				good := se >= 0 && strings.Contains(p.Trace[se].Label, "errC") && !isNilConst(p.Trace[se].Args[1].V)
+				// ... on every path, and at once: no second wait lies between the expiry and the report (an expiry
+				// that is looked at and then waited over again ends nothing - the timer is not re-armed by the watcher)
+				if good && p.Index(si+1, lblPrefix("select:")) >= 0 && p.Index(si+1, lblPrefix("select:")) < se {
+					good = false
+				}
+				if good {
+					nExpiry++
+				} else {
+					expiryAll = false
 				}
 			}
+			expiryOK = nExpiry > 0 && expiryAll
 			// the timer bound into the watcher is the same value stored in resp.t
 			same := false
 			if watcherMC == nil && watcherGo != nil {
@@ -344,7 +355,7 @@ func runC08(c *Ctx) {
 			}
 			okWire = okWire && same
 		}
-		c.Check(okWire && expiryOK, "C08.timer", fnName(sres), "watcher selects on the send timer and reports expiry on errC", P.Pos(sres.Pos()), fmt.Sprintf("same timer=%v, expiry sends a non-nil error=%v", okWire, expiryOK))
+		c.Check(okWire && expiryOK, "C08.timer", fnName(sres), "watcher selects on the send timer and reports expiry on errC", P.Pos(sres.Pos()), fmt.Sprintf("same timer=%v, every expiry path sends a non-nil error at once=%v (%d paths)", okWire, expiryOK, nExpiry))
 	}
 	// ---- dup clone
 	{
